@@ -3,6 +3,8 @@ import Genshi.Wire
 import Genshi.Model.Exec
 import Genshi.Model.ExecGraph
 import Genshi.Model.ExecParse
+import Genshi.Model.ExecShape
+import Genshi.Model.ExecMemo
 namespace Driver.C14
 open Genshi Genshi.Exec Genshi.Sexp
 
@@ -96,6 +98,24 @@ def errOut : Option Err → Sexp
   | some .diverge => .atom "diverge"
   | some .config => .atom "config"
   | some .unmodelled => .atom "unmodelled"
+
+mutual
+def sk? : Sexp → Option Sk
+  | .atom "V" => some .ev
+  | .atom "X" => some .exec
+  | .list (.atom "S" :: body) => (sklAux body).map .sub
+  | .list (.atom "I" :: fb) => (sklAux fb).map .incl
+  | _ => none
+def sklAux : List Sexp → Option (List Sk)
+  | [] => some []
+  | x :: xs => match sk? x, sklAux xs with
+      | some a, some b => some (a :: b)
+      | _, _ => none
+end
+
+def skl? : Sexp → Option (List Sk)
+  | .list xs => sklAux xs
+  | _ => none
 
 def natsOut (xs : List Nat) : Sexp := .list (xs.map ofNat)
 
@@ -202,12 +222,37 @@ def handle : List Sexp → Option Sexp
         (r.1, acc.2.1 ++ [.list [errOut r.2, natsOut out]], acc.2.2 || r.2 == some .unmodelled)
       let fin := history.foldl step (st0 flag ar, [], false)
       if fin.2.2 then pure (.atom "unmodelled") else
-      pure (.list [.list fin.2.1, natsOut fin.1.sentinel])
+      pure (.list [.list fin.2.1, natsOut fin.1.sentinel,
+        .list (fin.1.cache.map fun e => .list [ofNat e.1.1, ofBool e.1.2])])
+  | [.atom "memohist", cap, flag, ar, .list files, .list history] => do
+      let cap ← cap.toNat?; let flag ← flag.toBool?; let ar ← ar.toBool?
+      let fs ← files.mapM file?
+      let history ← history.mapM fun
+        | .list [n, c] => do let n ← n.toNat?; let c ← cls? c; pure (n, c)
+        | _ => none
+      let fuel := fs.length + 3
+      let step := fun (acc : MSt × List Sexp × Bool) (nc : Nat × Cls) =>
+        let r := histStepM cap fuel fuel fs acc.1 nc.1 nc.2
+        ({ r.1 with out := [] }, acc.2.1 ++ [.list [errOut r.2, natsOut (if r.2.isNone then r.1.out else [])]],
+          acc.2.2 || r.2 == some .unmodelled)
+      let fin := history.foldl step (mst0 flag ar, [], false)
+      if fin.2.2 then pure (.atom "unmodelled") else
+      pure (.list [.list fin.2.1, natsOut fin.1.sentinel,
+        .list (fin.1.cache.map fun e => .list [ofNat e.1.1, ofBool e.1.2, ofBool e.2.prep.isSome])])
   | [.atom "reach", t, l, o, ar, root, .list chain] => do
       let cfg ← cfg? t l o ar
       let root ← root? root
       let chain ← chain.mapM parse?
       pure (.list ((prefixes (.root root) chain).map fun r => nodeOut (node cfg r)))
+  | [.atom "objskel", sk] => do
+      let sk ← skl? sk
+      pure (.list [ofBool (hasExecL sk), ofBool (flatExec sk), ofNat (execDepthL sk)])
+  | [.atom "reachshape", t, l, o, ar, root, .list chain, k] => do
+      let cfg ← cfg? t l o ar; let r ← root? root; let chain ← chain.mapM parse?; let k ← k.toNat?
+      pure (match reachRow cfg (chain.foldl Reach.incl (.root r)) k with
+        | none => .atom "none"
+        | some row => .list [clsOut row.cls, .atom (match row.err with | .none => "ok" | .syntax => "Syntax" | .other => "other"),
+            ofBool row.ran, ofBool row.execExists, ofBool row.flag])
   | [.atom "parseopt", o] => do let o ← opt? o; pure (optResOut (parseOpt o))
   | _ => none
 
